@@ -138,6 +138,7 @@ def _real_pool_eval(spec, inp):
     multiprocessing.Lock = MODS["real_mp_lock"]
     multiprocessing.context.BaseContext.Lock = MODS["real_ctx_lock"]
     multiprocessing.Pool = MODS["real_pool"]
+    multiprocessing.context.BaseContext.Pool = MODS["real_ctx_pool"]
     for name, mod in list(_sys.modules.items()):
         if mod is not None and (name == "panoptica" or name.startswith("panoptica.")):
             for attr, val in list(vars(mod).items()):
